@@ -30,7 +30,15 @@ def gen_claim(rng, ncas=None, lat=None, one_per_stack=True):
         aac = rng.random() < 0.6
         while True:
             # names: random, or close together (differ in one low bit) to stress the comparison
-            nm = mk_name(rng, aac, None if rng.random() < 0.7 else (0x1234567800000000 + rng.randint(0, 3)))
+            r = rng.random()
+            if r < 0.6:
+                nm = mk_name(rng, aac, None)
+            elif r < 0.8:
+                nm = mk_name(rng, aac, 0x1234567800000000 + rng.randint(0, 3))
+            else:
+                # ... or differing from the others in ONE field only, whichever (identity number 0, manufacturer code 21, ECU instance
+                # 32, function instance 35, function 40, vehicle system 49, vehicle system instance 56, industry group 60)
+                nm = mk_name(rng, aac, 0x1234567800000000 ^ (1 << rng.choice([0, 21, 32, 33, 35, 40, 49, 56, 60])))
             if nm not in names:
                 names.add(nm)
                 break
